@@ -17,6 +17,7 @@ EXPLANATION = (
     "and clamps every idx>=L (L in {N-1,N}) to N-1, single-edge grids force open mode, negative spacing raises; "
     "D4 every bin1d_vec call on magnitude edges passes right_continuous=True, no coordinate call does; "
     "D5 cleaner_range = arange(round(scale*start), round(scale*end)+c*d, d)/scale with 0<c<=1 and magnitude_bins "
+    "Round 5: D5.magbins the generator's arguments are forwarded unchanged - a default may only be filled in after a None test, never by truthiness (0.0 is a magnitude); C03-D6.local explicit bins are never written into the shared region; D1.double no narrowing dtype in calc.py. "
     "forwards its arguments in order. NOT decided: which side of an edge a particular float64 lands on, ulp "
     "neighbourhoods, exactness of generated edges, float32/integer inputs, monotonicity for negative p.")
 CLAUSES = {'D1': 'floor of a single quotient', 'D2': 'tolerance bias direction', 'D3': 'range / clamp sets',
